@@ -99,6 +99,9 @@ def generic(ctx: Ctx, d, name, strict=True):
         seq = SSeq(n, name, lambda i, _c=ctx, _d=item_d, _n=name: generic(_c, _d, f"{_n}[{i}]", strict))
         seq.item_desc = item_d
         return SOpt(ctx.bool_const(name + "?none"), seq)
+    if k == "nb":
+        from contracts import records as CR
+        return CR.generic_optbytes(ctx, name)
     if k == "absitem":
         c = z3.Const(name, opaque.U)
         ctx.inputs[name] = c
